@@ -15,7 +15,23 @@ pub(crate) fn find_tld_or_enum_value_by_name(
     tlds: &BTreeMap<String, ToplevelDefinition>,
 ) -> Option<ASN1Value> {
     if let Some(ToplevelDefinition::Value(v)) = tlds.get(name) {
-        return Some(v.value.clone());
+        // a value that is itself given by reference: follow the references to the value
+        // assignment they end in (at most once through every definition)
+        let mut value = &v.value;
+        for _ in 0..tlds.len() {
+            match value {
+                ASN1Value::ElsewhereDeclaredValue {
+                    module: None,
+                    parent: None,
+                    identifier,
+                } => match tlds.get(identifier) {
+                    Some(ToplevelDefinition::Value(next)) => value = &next.value,
+                    _ => break,
+                },
+                _ => break,
+            }
+        }
+        return Some(value.clone());
     } else {
         for (_, tld) in tlds.iter() {
             if let Some(value) = tld.get_distinguished_or_enum_value(Some(type_name), name) {
